@@ -15,6 +15,7 @@ import (
 	"fmt"
 	"net/http"
 	"net/http/httptest"
+	"strings"
 	"sync/atomic"
 	"testing"
 	"time"
@@ -36,7 +37,9 @@ func c12valid(p Permission) bool { return p >= PermitAnyone && p <= PermitSelf }
 
 func TestBoundedC12Auth(t *testing.T) {
 	perms := []Permission{NotFound, Dynamic, NotSupported, PermitAnyone, PermitUser, PermitAdmin, PermitSelf, 100, -100}
-	methods := []string{http.MethodGet, http.MethodHead, http.MethodPost, http.MethodPut, http.MethodDelete}
+	// "OPTIONS>X" is an OPTIONS request with the preflight header naming X (without an Origin header it
+	// is no preflight and is authorised as X); plain OPTIONS and PATCH have no method class
+	methods := []string{http.MethodGet, http.MethodHead, http.MethodPost, http.MethodPut, http.MethodDelete, "OPTIONS>GET", "OPTIONS>DELETE", http.MethodOptions, http.MethodPatch}
 	h := &mainHandler{mux: mainMux}
 	var calls int64
 	path := func(rp, wp Permission) string { return fmt.Sprintf("/bounded/c12/%d/%d", rp, wp) }
@@ -108,6 +111,27 @@ func TestBoundedC12Auth(t *testing.T) {
 			return func(r *http.Request) { r.Header.Set("Authorization", headers[i%len(headers)]); i++ }
 		}},
 	}
+	sources = append(sources,
+		source{"authenticator returning an error", none, func(rd, wr Permission) func(*http.Request) {
+			testToken.Read, testToken.Write = -127, -127
+			return func(*http.Request) {}
+		}},
+		source{"authenticator denying access", none, func(rd, wr Permission) func(*http.Request) {
+			testToken.Read, testToken.Write = -128, -128
+			return func(*http.Request) {}
+		}},
+		source{"database bridge (admin)", func(Permission) Permission { return dbCompatibilityPermission }, func(rd, wr Permission) func(*http.Request) {
+			anonymous()
+			return func(r *http.Request) { r.RemoteAddr = endpointBridgeRemoteAddress }
+		}},
+		source{"development mode (full access)", func(Permission) Permission { return PermitSelf }, func(rd, wr Permission) func(*http.Request) {
+			anonymous()
+			devMode = func() bool { return true }
+			return func(*http.Request) {}
+		}},
+	)
+	wasDev := devMode
+	defer func() { devMode = wasDev }()
 	cases, fails, invoked := 0, 0, 0
 	fail := func(in string) {
 		fails++
@@ -118,6 +142,7 @@ func TestBoundedC12Auth(t *testing.T) {
 	for _, src := range sources {
 		for _, grantR := range perms {
 			for _, grantW := range perms {
+				devMode = wasDev
 				decorate := src.setup(grantR, grantW)
 				for _, hr := range perms {
 					for _, hw := range perms {
@@ -126,13 +151,21 @@ func TestBoundedC12Auth(t *testing.T) {
 								continue // enough evidence
 							}
 							cases++
-							reading := m == http.MethodGet || m == http.MethodHead
-							req := httptest.NewRequest(m, "http://"+defaultListenAddress+path(hr, hw), nil)
+							reading := m == http.MethodGet || m == http.MethodHead || m == "OPTIONS>GET"
+							noClass := m == http.MethodOptions || m == http.MethodPatch
+							httpMethod := m
+							if strings.HasPrefix(m, "OPTIONS>") {
+								httpMethod = http.MethodOptions
+							}
+							req := httptest.NewRequest(httpMethod, "http://"+defaultListenAddress+path(hr, hw), nil)
+							if strings.HasPrefix(m, "OPTIONS>") {
+								req.Header.Set("Access-Control-Request-Method", strings.TrimPrefix(m, "OPTIONS>"))
+							}
 							req.RemoteAddr = "127.0.0.1:50000"
 							decorate(req)
 							// a CORS preflight header on a request that is not a preflight says nothing about
 							// the request itself: it names the other method class on a part of the requests
-							if cases%3 == 0 {
+							if cases%3 == 0 && httpMethod != http.MethodOptions {
 								other := http.MethodGet
 								if reading {
 									other = http.MethodPost
@@ -166,6 +199,8 @@ func TestBoundedC12Auth(t *testing.T) {
 							if called {
 								invoked++
 								switch {
+								case noClass:
+									fail(desc + ": handler invoked for a method that has no method class")
 								case !c12valid(need):
 									fail(desc + ": handler invoked although it declares no valid permission for this method class")
 								case !c12valid(granted) || granted < need:
@@ -190,7 +225,7 @@ func TestBoundedC12Auth(t *testing.T) {
 	if invoked == 0 {
 		fail("vacuous harness: no handler was ever invoked")
 	}
-	fmt.Printf("BOUNDED name=C12/auth-matrix cases=%d distinct=%d bound=%d credential sources (authenticator, session cookie live / expired / unknown, API key Bearer / Basic / expired / unknown-short-malformed) x 9 x 9 granted read/write permissions (incl. not-found, dynamic, not-supported, out-of-range) x 9 x 9 handler requirements x 5 methods (every third request also carries an Access-Control-Request-Method header naming the other method class) through the real mainHandler; checked: a handler runs only with a valid requirement and a valid, sufficient granted permission for the method class, every refusal is 401/403/404/405/500, nothing panics (%d requests reached a handler)\n",
+	fmt.Printf("BOUNDED name=C12/auth-matrix cases=%d distinct=%d bound=%d credential sources (authenticator, session cookie live / expired / unknown, API key Bearer / Basic / expired / unknown-short-malformed, authenticator error / denial, database bridge, development mode) x 9 x 9 granted read/write permissions (incl. not-found, dynamic, not-supported, out-of-range) x 9 x 9 handler requirements x 9 methods (GET, HEAD, POST, PUT, DELETE, OPTIONS naming GET / DELETE in the preflight header, plain OPTIONS, PATCH; every third request also carries an Access-Control-Request-Method header naming the other method class) through the real mainHandler; checked: a handler runs only with a valid requirement and a valid, sufficient granted permission for the method class, every refusal is 401/403/404/405/500, nothing panics (%d requests reached a handler)\n",
 		cases, cases, len(sources), invoked)
 	if fails > 0 {
 		t.Fatalf("%d of %d cases fail", fails, cases)
